@@ -1,16 +1,20 @@
 """C02 — capture groups vs the reference winning path (all groups of every match)."""
 from . import engprop, gen
 
-F = [gen.Feats(refs_closed=True), gen.Feats(refs_closed=True, named=True), gen.Feats(refs_closed=True, look=True, atomic=True)]
+F = [gen.Feats(refs_closed=True), gen.Feats(refs_closed=True, named=True), gen.Feats(refs_closed=True, look=True, atomic=True), gen.Feats(refs_closed=True, cond=True)]
 CFG = {
     "prop": "C02", "theorems": ["C02_groups_follow_reference", "C02_groups_follow_reference_all"], "feats": F, "n_quick": 500, "n_thorough": 12000,
     "tiers": ("t2", "run", "sem"), "k_base_quick": 14, "k_extra_quick": 8, "k_base_thorough": 80, "k_extra_thorough": 40,
     "corpus": ["(?:(?:(a)|b)(?=))*", "(?:(?>(a)|b)){2}", "(?:(?:(a)|b)(?!x))+", "(?:(?=(a)|b).)+", "(?:(?:(a)|(b))(?!x))+",
                "(?:(?>(?:(a)(?=.))*)c|a*d)", "(?>(?:(a)(?=.))*)b", "(?<=(a)|(c?a))\\2b", "(?<=(a)|(ca))(?:\\2)?b", "(a)|(b)", "((a)|b)*",
+               "(x)?(?(1)(a)|(b))", "(x)?(?(1)(a)|(b))\\2", "(?<x>x)?(?(<x>)(?<t>a)|(?<f>b))", "(?(a)(a)|(b))(?(2)x|y)",
+               "(?:(?<=(a)|(\\w))(?(1)x|y)|y)", "(?<=(a)|(\\w))(?(1)x|y)", "(?<=(a)|(.))\\2", "(?<=(a)|(b))c\\1?",
+               "(?=(?:(a)|a)(?=b))a(?(1)x|b)", "(?<=(?:(a)|.)(?!x))c(?(1)z|y)", "(?=(?:(a)|(.))(?=))\\2",
+               "(?>(a)?b)+", "(?:(?=(?:(a)|.)).)+", "(?:(?:(a)|(b))(?!x))+",
                # a slot written several times inside a VM-compiled atomic body that is then abandoned as a whole
                "(?>(?:(a)|b(?!x))+)c|\\w+", "(?>(?:(a)(?!x)|b)+)c|\\w+", "(?>(?:(a)(?=.)|(b)(?=.))+)c|.+", "(?:(?>(?:(a)|b(?!x))+)c|\\w)+", "(?>(?:(a)\\b?|b(?!x)){2,3})c|\\w+",
                "(?=(?:(a)|b(?!x))+c)|\\w+", "(?>(?:(a)|(b)(?!x))+)\\2c|\\w+", "(?>(a)b|a(b))\\2|abb", "(?>(a)(?=b)|a(b))\\2|abb", "(?>(?:(a)b|a(b)))(?(2)b|c)|abc", "(?=(a))\\1", "(?!(a))b", "((a)*?)b"],
-    "extra_texts": ["cacab", "acab", "caab", "abab-", "abab", "ababc", "abb", "abbb", "baba-"],
+    "extra_texts": ["cacab", "acab", "caab", "abab-", "abab", "ababc", "abb", "abbb", "baba-", "xa", "xaa", "ay", "ayax", "acy", "ab", "abb"],
     "assumptions": ["patterns refer only to groups closed earlier (the property's quantifier)"],
 }
 
